@@ -6,7 +6,30 @@
   logging/publish.py     LogPublisher.remote_get_incident                     -> name prefix test, path construction
 
 Every statement of these functions is either recognised (and becomes a step / a fact), is known to be irrelevant
-(does not mention a file variable, `os`, `shutil`, `open`), or makes the generator fail closed."""
+(does not mention a file variable, `os`, `shutil`, `open`), or makes the generator fail closed.
+
+Forms accepted in addition to the reference text, with the reason why they are the same program for ALL inputs
+(translate/normalize.py already undoes new single-result helpers, new constants and renamed locals before this file runs):
+
+ * `t1, .., tn = self.H(a1, .., am)` as a whole statement, H a method of the same class (`inline_tuple_helper`).
+   Accepted only if H is defined exactly once in the class, has no decorators, only plain positional parameters, every
+   argument is a bare local name, H never assigns a parameter, contains no nested def/lambda/yield/global/nonlocal, its
+   only `return` is its LAST top-level statement and returns a tuple display of n bare names, and none of H's locals
+   (other than the returned ones, which are renamed to t1..tn) is a name of the caller.  Then the statement is replaced
+   by H's body (parameters renamed to the arguments, returned locals renamed to the targets).  Equivalence: Python
+   evaluates the call by binding the parameters to the very objects the argument names denote and executing the body;
+   a parameter that is never assigned stays an alias of the argument, so reading the argument name instead reads the
+   same object; H's other locals live in a fresh frame, so renaming them apart from the caller's names changes nothing;
+   exceptions propagate from the same statement in the same order (the body has no return before its end, so nothing
+   is skipped); building the n-tuple of names and unpacking it into n distinct plain names performs exactly the n
+   assignments `ti = ri`, with no user code in between (tuple display and unpacking of an exact tuple call nothing).
+   The lookup `self.H` is assumed to find the class's own method (no instance attribute / subclass override of a
+   private helper) -- the same assumption normalize.py makes for every helper it inlines.
+
+ * in IncidentObserver.update_latest: `v = <expr>` immediately followed by `f = open(v, 'w')`, v not occurring anywhere
+   else in the function, instead of `f = open(<expr>, 'w')`.  Equivalence: <expr> is evaluated at the same point (nothing
+   runs between the two statements), exactly once, and open() receives the same object; v is dead afterwards.
+"""
 import ast, re
 from translate import pylite as P
 
@@ -278,10 +301,82 @@ def gen_registry(out):
     out.append(coq_steps("registry_steps", steps))
 
 
+class _Rename(ast.NodeTransformer):
+    def __init__(self, mapping):
+        self.m = mapping
+
+    def visit_Name(self, node):
+        if node.id in self.m:
+            return ast.copy_location(ast.Name(id=self.m[node.id], ctx=node.ctx), node)
+        return node
+
+
+def _stored_names(nodes):
+    out = set()
+    for n in nodes:
+        for x in ast.walk(n):
+            if isinstance(x, ast.Name) and isinstance(x.ctx, (ast.Store, ast.Del)):
+                out.add(x.id)
+            elif isinstance(x, ast.arg):
+                out.add(x.arg)
+    return out
+
+
+def inline_tuple_helper(cls, fn):
+    """body of fn with every top-level `t1,..,tn = self.H(a1..am)` replaced by H's body (see the module docstring for the
+    side conditions and the equivalence argument).  Statements that do not qualify are left alone."""
+    import copy
+    body = strip_doc(fn.body)
+    out = []
+    for st in body:
+        ok = (isinstance(st, ast.Assign) and len(st.targets) == 1 and isinstance(st.targets[0], ast.Tuple)
+              and all(isinstance(e, ast.Name) for e in st.targets[0].elts)
+              and isinstance(st.value, ast.Call) and isinstance(st.value.func, ast.Attribute)
+              and isinstance(st.value.func.value, ast.Name) and st.value.func.value.id == "self"
+              and not st.value.keywords and all(isinstance(a, ast.Name) for a in st.value.args))
+        if not ok:
+            out.append(st)
+            continue
+        targets = [e.id for e in st.targets[0].elts]
+        hs = [n for n in cls.body if isinstance(n, (ast.FunctionDef, ast.AsyncFunctionDef)) and n.name == st.value.func.attr]
+        if len(hs) != 1 or not isinstance(hs[0], ast.FunctionDef) or len(set(targets)) != len(targets):
+            out.append(st)
+            continue
+        h = hs[0]
+        a = h.args
+        params = [x.arg for x in a.args]
+        hb = strip_doc(h.body)
+        good = (not h.decorator_list and not a.vararg and not a.kwarg and not a.kwonlyargs and not a.posonlyargs and not a.defaults
+                and params[:1] == ["self"] and len(params) - 1 == len(st.value.args) and hb
+                and isinstance(hb[-1], ast.Return) and isinstance(hb[-1].value, ast.Tuple)
+                and all(isinstance(e, ast.Name) for e in hb[-1].value.elts) and len(hb[-1].value.elts) == len(targets))
+        if good:
+            inner = [x for s2 in hb[:-1] for x in ast.walk(s2)]
+            good = not any(isinstance(x, (ast.Return, ast.FunctionDef, ast.AsyncFunctionDef, ast.Lambda, ast.Yield, ast.YieldFrom,
+                                          ast.Global, ast.Nonlocal, ast.ClassDef, ast.Await)) for x in inner)
+        if good:
+            rets = [e.id for e in hb[-1].value.elts]
+            stored = _stored_names(hb[:-1])
+            args = [x.id for x in st.value.args]
+            caller_names = {x.id for s2 in body for x in ast.walk(s2) if isinstance(x, ast.Name)} | {x.arg for x in fn.args.args}
+            good = (len(set(rets)) == len(rets) and all(r in stored for r in rets)
+                    and not (set(params) & stored)                        # parameters are never assigned
+                    and not ((stored - set(rets)) & (caller_names | set(targets)))   # helper locals do not clash
+                    and not (set(params[1:]) & (stored | set(rets))))
+        if not good:
+            out.append(st)
+            continue
+        mapping = dict(zip(params[1:], args))
+        mapping.update(dict(zip(rets, targets)))
+        for s2 in hb[:-1]:
+            out.append(ast.fix_missing_locations(_Rename(mapping).visit(copy.deepcopy(s2))))
+    return out
+
+
 def gen_gatherer(out):
     mod = P.load("logging/gatherer.py")
     fn = P.find_def(mod, "IncidentObserver._got_incident")
-    body = strip_doc(fn.body)
+    body = inline_tuple_helper(P.find_class(mod, "IncidentObserver"), fn)
     texts = [U(s) for s in body]
     # fp = self.basedir.child(name) ; [if fp.parent() != self.basedir: raise] ; abs_fn = fp.path + '.flog.bz2'
     # (older form: abs_fn = self.basedir.child(name).path ; abs_fn += '.flog.bz2')
@@ -349,7 +444,10 @@ def gen_gatherer(out):
     if "f = bz2.BZ2File(filename, 'w')" not in si:
         raise P.Untranslatable("save_incident no longer writes BZ2File(filename, 'w')")
     ul = [U(s) for s in strip_doc(P.find_def(mod, "IncidentObserver.update_latest").body)]
-    if ul[:1] != ["f = open(self.basedir.child('latest').path, 'w')"]:
+    m = re.fullmatch(r"(\w+) = self\.basedir\.child\('latest'\)\.path", ul[0]) if ul else None
+    via_local = bool(m) and len(ul) >= 2 and ul[1] == "f = open(%s, 'w')" % m.group(1) and m.group(1) != "f" \
+        and sum(len(re.findall(r"\b%s\b" % re.escape(m.group(1)), t)) for t in ul) == 2
+    if ul[:1] != ["f = open(self.basedir.child('latest').path, 'w')"] and not via_local:
         raise P.Untranslatable("update_latest changed: %s" % ul)
     out.append("(* logging/gatherer.py IncidentObserver._got_incident *)")
     out.append("Definition gatherer_guard : guardk := %s." % guard)
